@@ -19,18 +19,87 @@ def _vc(name, variables=None, label=None):
     return ("vc", name, variables, label)
 
 
+DIV128_Q = [_vc("div128", {"FEATURES": "radix"}, "div128-radix")]
+DIV128_T = [_vc("div128", {"FEATURES": "radix"}, "div128-radix"),
+            _vc("div128", {"FEATURES": "power-of-two"}, "div128-pow2"),
+            _vc("div128", {"FEATURES": ""}, "div128-default")]
+
+FLOAT_THEOREMS = [
+    "ASSUMED (not decidable by contracts here): Eisel-Lemire theorem - given exact POWER_OF_FIVE_128 rows and the "
+    "error-marker escape, a non-error compute_float result is the correctly rounded value",
+    "ASSUMED: Bellerophon error bound (error_is_accurate thresholds) for compact / non-decimal radices",
+    "ASSUMED: one IEEE-754 multiply/divide of exactly representable operands is correctly rounded (Clinger fast path)",
+]
+
+PROPS["C01"] = dict(
+    title="Decimal string-to-float parsing is correctly rounded",
+    level_text="Every ingredient the correct-rounding theorems rest on is a discharged obligation: each of the 651 Lemire "
+               "rows, every integer power table, every Clinger limit (safety direction), SWAR digit kernels on full "
+               "domains. The end-to-end rounding theorems themselves are listed as assumptions.",
+    rows_quick=["pf-lemire-table", "pf-int-powers", "pf-limits"],
+    assumptions=FLOAT_THEOREMS,
+)
+PROPS["C02"] = dict(
+    title="Float-to-decimal output round-trips exactly and is shortest",
+    level_text="Dragonbox ingredients as closed obligations generated from the current source: every cache row (78 + 619) "
+               "equals the defining ceiling; every integer-log approximation is exact on every argument reachable from a "
+               "finite f32/f64 and keeps the cache index and shift in range; every exponent threshold that skips an exact "
+               "test satisfies its defining inequality at every binary exponent. The Dragonbox theorem is assumed.",
+    rows_quick=["wf-dragonbox-table", "wf-dragonbox-thresholds", "wf-dragonbox-logs"],
+    assumptions=["ASSUMED: Dragonbox theorem (Jeon 2020): with exact cache rows, exact helper arithmetic and correctly "
+                 "derived thresholds the result is in the rounding interval, shortest and closest",
+                 "ASSUMED: Grisu2 theorem for the `compact` writer"],
+)
 PROPS["C03"] = dict(
-    level_text="Integer writers: Verus contracts on the extracted arithmetic kernels (128-bit division, digit counts, "
-               "digit loops) prove output == canonical numeral for all values; Kani proves the small-width entry points "
-               "and wrappers on the real crates over their full domains; per-radix tables row by row.",
-    verus_quick=[_vc("div128", {"FEATURES": "radix"}, "div128-radix")],
-    verus_thorough=[_vc("div128", {"FEATURES": "radix"}, "div128-radix"),
-                    _vc("div128", {"FEATURES": "power-of-two"}, "div128-pow2"),
-                    _vc("div128", {"FEATURES": ""}, "div128-default")],
-    rows_quick=[],
+    title="Integer-to-string output is the exact canonical numeral in every radix",
+    level_text="Integer writers: Verus contracts on the extracted arithmetic kernels (128-bit division by magic numbers, "
+               "all 35 radices) prove quotient/remainder for all n; every radix^2 digit table entry and every step / "
+               "divisor constant is a discharged row obligation; Kani proves small-width entry points on the real crates "
+               "over their full domains.",
+    verus_quick=DIV128_Q, verus_thorough=DIV128_T,
+    rows_quick=["wi-digit-tables", "util-step"],
     assumptions=["core::fmt::Display prints the canonical decimal numeral (not verified here)"],
 )
-
+PROPS["C04"] = dict(
+    title="String-to-integer parsing is exact with exact overflow detection",
+    level_text="SWAR validity/combine kernels and digit decoding are proved on their full domains (all words, all radices "
+               "<= 10; all bytes x all radices). The complete and partial parsers are compared against a left-to-right "
+               "reference scanner on all byte strings up to a stated length (bounded stand-in).",
+    assumptions=["unbounded input length is not reached: the parser is a macro over trait iterators outside Verus' subset; "
+                 "Kani harnesses bound the length"],
+)
+PROPS["C05"] = dict(
+    title="Non-decimal radix string-to-float parsing is correctly rounded",
+    level_text="Per-radix ingredients as row obligations: Clinger limits for all 35 radices (safety direction), every "
+               "small/large integer power table. Rounding theorems assumed.",
+    rows_quick=["pf-limits", "pf-int-powers"],
+    assumptions=FLOAT_THEOREMS,
+)
+PROPS["C10"] = dict(
+    title="Parsers are total",
+    level_text="Every parser harness is also a totality check on the real code (no panic, no failed pointer check, "
+               "unwinding assertions, indices <= len) for all byte strings up to the stated length.",
+    assumptions=[],
+)
+PROPS["C11"] = dict(
+    title="Partial and complete parsers agree",
+    level_text="Relational Kani harnesses on the same symbolic input, both directions plus prefix re-parse.",
+    assumptions=[],
+)
+PROPS["C16"] = dict(
+    title="Cargo features are additive",
+    level_text="The same specification (canonical numeral / reference scanner) is discharged in each feature set, hence "
+               "results are equal across sets; inherits the bounds of C03/C04.",
+    verus_quick=DIV128_T,
+    assumptions=["two feature sets cannot be linked into one program; equality is by 'equal to the same spec'"],
+)
+PROPS["C18"] = dict(
+    title="Format and options validation is sound and complete",
+    level_text="format_error_impl(f) == Success <=> documented constraints for all 2^128 packed formats per feature set "
+               "(loop-free, complete); build_strict panics iff invalid; rebuild round trip; every flag setter changes "
+               "exactly its own flag.",
+    assumptions=["format_error_impl reached through the add-only cfg(lexical_verif) hook"],
+)
 
 def build_jobs(prop, tier, wd, only=None):
     P = PROPS[prop]
